@@ -139,16 +139,21 @@ pub struct ConfirmationTarget {} pub struct ScriptBuf {}
 pub struct TrustedTx {} impl TrustedTx { #[verifier::external_body] pub fn txid(&self) -> Txid { unimplemented!() } }
 pub struct HolderCommitmentTransaction {} impl HolderCommitmentTransaction { #[verifier::external_body] pub fn trust(&self) -> TrustedTx { unimplemented!() } }
 pub struct FundingScope { pub current_holder_commitment_tx: HolderCommitmentTransaction }
-pub struct OnchainTxHandler {}
+// ghost log of what the claim handler was told: a rollback to a height, or that a transaction is no longer confirmed
+pub enum HandlerTold { RolledBackTo(u32), Unconfirmed(Txid) }
+pub struct OnchainTxHandler { pub told: Ghost<Seq<HandlerTold>> }
 impl OnchainTxHandler {
     #[verifier::external_body]
-    pub fn blocks_disconnected<B: BroadcasterInterface, F: FeeEstimator, L: Logger>(&mut self, new_height: u32, broadcaster: &B, conf_target: ConfirmationTarget, destination_script: &ScriptBuf, fee_estimator: &LowerBoundedFeeEstimator<F>, logger: &WithContext<L>) { unimplemented!() }
+    pub fn blocks_disconnected<B: BroadcasterInterface, F: FeeEstimator, L: Logger>(&mut self, new_height: u32, broadcaster: &B, conf_target: ConfirmationTarget, destination_script: &ScriptBuf, fee_estimator: &LowerBoundedFeeEstimator<F>, logger: &WithContext<L>)
+        ensures final(self).told@ == old(self).told@.push(HandlerTold::RolledBackTo(new_height)) { unimplemented!() }
     #[verifier::external_body]
-    pub fn transaction_unconfirmed<B: BroadcasterInterface, F: FeeEstimator, L: Logger>(&mut self, txid: &Txid, broadcaster: &B, conf_target: ConfirmationTarget, destination_script: &ScriptBuf, fee_estimator: &LowerBoundedFeeEstimator<F>, logger: &WithContext<L>) { unimplemented!() }
+    pub fn transaction_unconfirmed<B: BroadcasterInterface, F: FeeEstimator, L: Logger>(&mut self, txid: &Txid, broadcaster: &B, conf_target: ConfirmationTarget, destination_script: &ScriptBuf, fee_estimator: &LowerBoundedFeeEstimator<F>, logger: &WithContext<L>)
+        ensures final(self).told@ == old(self).told@.push(HandlerTold::Unconfirmed(*txid)) { unimplemented!() }
 }
 // R5: self skeleton with exactly the fields the two functions touch
 pub struct ChannelMonitorImpl { pub best_block: BlockLocator, pub onchain_events_awaiting_threshold_conf: Vec<OnchainEventEntry>, pub alternative_funding_confirmed: Option<(Txid, u32)>,
-    pub holder_tx_signed: bool, pub funding_spend_seen: bool, pub funding: FundingScope, pub onchain_tx_handler: OnchainTxHandler, pub destination_script: ScriptBuf }
+    pub holder_tx_signed: bool, pub funding_spend_seen: bool, pub funding: FundingScope, pub onchain_tx_handler: OnchainTxHandler, pub destination_script: ScriptBuf,
+    pub matured_at: Ghost<Seq<(u32, BlockHash)>> }   // matured_at: ghost log of the (height, hash) block_confirmed was run for
 
 pub open spec fn kept_le(s: Seq<OnchainEventEntry>, h: int) -> Seq<OnchainEventEntry> decreases s.len() {
     if s.len() == 0 { Seq::empty() } else { let k = kept_le(s.drop_last(), h); if s.last().height as int <= h { k.push(s.last()) } else { k } }
@@ -180,31 +185,37 @@ impl ChannelMonitorImpl {
     #[verifier::external_body]
     pub fn cancel_prev_commitment_claims<L: Logger>(&mut self, logger: &L, confirmed_commitment_txid: &Txid)
         ensures final(self).best_block == old(self).best_block, final(self).onchain_events_awaiting_threshold_conf == old(self).onchain_events_awaiting_threshold_conf,
-            final(self).alternative_funding_confirmed == old(self).alternative_funding_confirmed, final(self).holder_tx_signed == old(self).holder_tx_signed, final(self).funding_spend_seen == old(self).funding_spend_seen
+            final(self).alternative_funding_confirmed == old(self).alternative_funding_confirmed, final(self).holder_tx_signed == old(self).holder_tx_signed, final(self).funding_spend_seen == old(self).funding_spend_seen,
+            final(self).onchain_tx_handler.told == old(self).onchain_tx_handler.told, final(self).matured_at == old(self).matured_at
     { unimplemented!() }
     #[verifier::external_body]
     fn closure_conf_target(&self) -> ConfirmationTarget { unimplemented!() }
     #[verifier::external_body]
     pub fn queue_latest_holder_commitment_txn_for_broadcast<B: BroadcasterInterface, F: FeeEstimator, L: Logger>(&mut self, broadcaster: &B, fee_estimator: &LowerBoundedFeeEstimator<F>, logger: &WithContext<L>, require_funding_seen: bool)
         ensures final(self).best_block == old(self).best_block, final(self).onchain_events_awaiting_threshold_conf == old(self).onchain_events_awaiting_threshold_conf,
-            final(self).alternative_funding_confirmed == old(self).alternative_funding_confirmed
+            final(self).alternative_funding_confirmed == old(self).alternative_funding_confirmed,
+            final(self).onchain_tx_handler.told == old(self).onchain_tx_handler.told, final(self).matured_at == old(self).matured_at
     { unimplemented!() }
 
     // block_confirmed (matures events, generates claims) only reads best_block (checked by reading it): frame assumed
     #[verifier::external_body]
     pub fn block_confirmed<B: BroadcasterInterface, F: FeeEstimator, L: Logger>(&mut self, conf_height: u32, conf_hash: BlockHash, txn_matched: Vec<Transaction>,
         watch_outputs: Vec<TransactionOutputs>, claimable_outpoints: Vec<OutPoint>, broadcaster: &B, fee_estimator: &LowerBoundedFeeEstimator<F>, logger: &WithContext<L>) -> (r: Vec<TransactionOutputs>)
-        ensures final(self).best_block == old(self).best_block
+        ensures final(self).best_block == old(self).best_block, final(self).matured_at@ == old(self).matured_at@.push((conf_height, conf_hash)), final(self).onchain_tx_handler == old(self).onchain_tx_handler
     { unimplemented!() }
 
 //@extract lightning/src/chain/channelmonitor.rs :: impl ChannelMonitorImpl :: fn best_block_updated
 //@ret r
 //@ensures P C11 a-new-best-block-at-or-below-the-known-height-with-another-hash-is-a-reorg-every-awaiting-event-above-it-is-retracted
-    height > old(self).best_block.height ==> final(self).best_block.height == height && final(self).best_block.block_hash == header.h,
+    height > old(self).best_block.height ==> final(self).best_block.height == height && final(self).best_block.block_hash == header.h
+        // ... and events and claims are matured for exactly that block
+        && final(self).matured_at@ == old(self).matured_at@.push((height, header.h)) && final(self).onchain_tx_handler == old(self).onchain_tx_handler,
     height <= old(self).best_block.height && header.h != old(self).best_block.block_hash ==>
         final(self).best_block.height == height && final(self).best_block.block_hash == header.h
         && final(self).onchain_events_awaiting_threshold_conf@ == kept_le(old(self).onchain_events_awaiting_threshold_conf@, height as int)
-        && forall|k: int| 0 <= k < final(self).onchain_events_awaiting_threshold_conf@.len() ==> (#[trigger] final(self).onchain_events_awaiting_threshold_conf@[k]).height <= height,
+        && forall|k: int| 0 <= k < final(self).onchain_events_awaiting_threshold_conf@.len() ==> (#[trigger] final(self).onchain_events_awaiting_threshold_conf@[k]).height <= height
+        // ... and the claim handler is rolled back to the same height
+        && final(self).onchain_tx_handler.told@ == old(self).onchain_tx_handler.told@.push(HandlerTold::RolledBackTo(height)) && final(self).matured_at@ == old(self).matured_at@,
     height <= old(self).best_block.height && header.h == old(self).best_block.block_hash ==>
         final(self).best_block == old(self).best_block && final(self).onchain_events_awaiting_threshold_conf@ == old(self).onchain_events_awaiting_threshold_conf@,
 //@rw R6e
@@ -218,7 +229,7 @@ impl ChannelMonitorImpl {
             invariant
                 __i <= self.onchain_events_awaiting_threshold_conf@.len() <= orig.len(), self.best_block.height == height, self.best_block.block_hash == block_hash,
                 self.alternative_funding_confirmed == old(self).alternative_funding_confirmed,
-                self.holder_tx_signed == old(self).holder_tx_signed, self.funding_spend_seen == old(self).funding_spend_seen,
+                self.holder_tx_signed == old(self).holder_tx_signed, self.funding_spend_seen == old(self).funding_spend_seen, self.onchain_tx_handler == old(self).onchain_tx_handler, self.matured_at == old(self).matured_at,
                 self.onchain_events_awaiting_threshold_conf@.skip(__i as int) == orig.skip(orig.len() - (self.onchain_events_awaiting_threshold_conf@.len() - __i)),
                 self.onchain_events_awaiting_threshold_conf@.take(__i as int) == kept_le(orig.take(orig.len() - (self.onchain_events_awaiting_threshold_conf@.len() - __i)), height as int),
             decreases self.onchain_events_awaiting_threshold_conf@.len() - __i
@@ -257,6 +268,8 @@ impl ChannelMonitorImpl {
     final(self).best_block == fork_point,
     final(self).onchain_events_awaiting_threshold_conf@ == kept_le(old(self).onchain_events_awaiting_threshold_conf@, fork_point.height as int),
     forall|k: int| 0 <= k < final(self).onchain_events_awaiting_threshold_conf@.len() ==> (#[trigger] final(self).onchain_events_awaiting_threshold_conf@[k]).height <= fork_point.height,
+    // the claim handler is rolled back to the same fork point
+    final(self).onchain_tx_handler.told@ == old(self).onchain_tx_handler.told@.push(HandlerTold::RolledBackTo(fork_point.height)),
 //@ensures P C11 a-reorg-forgets-the-confirmation-of-a-spliced-funding-transaction-exactly-when-the-block-that-confirmed-it-is-above-the-fork-point
     final(self).alternative_funding_confirmed == (match old(self).alternative_funding_confirmed { Some(c) => if c.1 > fork_point.height { None } else { Some(c) }, None => None }),
 //@rw R6e
@@ -270,7 +283,7 @@ impl ChannelMonitorImpl {
             invariant
                 __i <= self.onchain_events_awaiting_threshold_conf@.len() <= orig.len(), new_height == fork_point.height,
                 self.best_block == old(self).best_block, self.alternative_funding_confirmed == old(self).alternative_funding_confirmed,
-                self.holder_tx_signed == old(self).holder_tx_signed, self.funding_spend_seen == old(self).funding_spend_seen,
+                self.holder_tx_signed == old(self).holder_tx_signed, self.funding_spend_seen == old(self).funding_spend_seen, self.onchain_tx_handler == old(self).onchain_tx_handler, self.matured_at == old(self).matured_at,
                 self.onchain_events_awaiting_threshold_conf@.skip(__i as int) == orig.skip(orig.len() - (self.onchain_events_awaiting_threshold_conf@.len() - __i)),
                 self.onchain_events_awaiting_threshold_conf@.take(__i as int) == kept_le(orig.take(orig.len() - (self.onchain_events_awaiting_threshold_conf@.len() - __i)), new_height as int),
             decreases self.onchain_events_awaiting_threshold_conf@.len() - __i
@@ -292,6 +305,10 @@ impl ChannelMonitorImpl {
         assert(self.onchain_events_awaiting_threshold_conf@.take(self.onchain_events_awaiting_threshold_conf@.len() as int) =~= self.onchain_events_awaiting_threshold_conf@);
         lemma_kept_all_le(orig, new_height as int);
     }
+//@mutant claim_handler_rolled_back_to_the_old_tip
+    self.onchain_tx_handler.blocks_disconnected( new_height, &broadcaster,
+//@with
+    self.onchain_tx_handler.blocks_disconnected( self.best_block.height, &broadcaster,
 //@mutant events_at_the_fork_height_dropped
     entry.height <= new_height
 //@with
@@ -314,6 +331,8 @@ impl ChannelMonitorImpl {
     forall|k: int| 0 <= k < final(self).onchain_events_awaiting_threshold_conf@.len() ==> old(self).onchain_events_awaiting_threshold_conf@.contains(#[trigger] final(self).onchain_events_awaiting_threshold_conf@[k]),
     (forall|k: int| 0 <= k < old(self).onchain_events_awaiting_threshold_conf@.len() ==> (#[trigger] old(self).onchain_events_awaiting_threshold_conf@[k]).txid != *txid)
         ==> final(self).onchain_events_awaiting_threshold_conf@ == old(self).onchain_events_awaiting_threshold_conf@,
+    // the claim handler is told about the same transaction
+    final(self).onchain_tx_handler.told@ == old(self).onchain_tx_handler.told@.push(HandlerTold::Unconfirmed(*txid)),
 //@ensures P C11 unconfirming-the-spliced-funding-transaction-forgets-its-confirmation-and-unconfirming-any-other-transaction-leaves-it
     final(self).alternative_funding_confirmed == (match old(self).alternative_funding_confirmed { Some(c) => if c.0 == *txid { None } else { Some(c) }, None => None }),
 //@loop 1 iter=it
@@ -336,7 +355,7 @@ impl ChannelMonitorImpl {
             invariant
                 __i <= self.onchain_events_awaiting_threshold_conf@.len() <= orig.len(),
                 self.best_block == old(self).best_block, self.alternative_funding_confirmed == old(self).alternative_funding_confirmed,
-                self.holder_tx_signed == old(self).holder_tx_signed, self.funding_spend_seen == old(self).funding_spend_seen,
+                self.holder_tx_signed == old(self).holder_tx_signed, self.funding_spend_seen == old(self).funding_spend_seen, self.onchain_tx_handler == old(self).onchain_tx_handler, self.matured_at == old(self).matured_at,
                 self.onchain_events_awaiting_threshold_conf@.skip(__i as int) == orig.skip(orig.len() - (self.onchain_events_awaiting_threshold_conf@.len() - __i)),
                 self.onchain_events_awaiting_threshold_conf@.take(__i as int) == kept_le(orig.take(orig.len() - (self.onchain_events_awaiting_threshold_conf@.len() - __i)), removed_height as int - 1),
             decreases self.onchain_events_awaiting_threshold_conf@.len() - __i
